@@ -85,3 +85,17 @@ package schema
 //@              (exists j int :: 0 <= j && j < len(t.Columns) && t.Columns[j] == old[*Column](t.Columns[i])))
 //@   ensures only-unmatched-columns-remain: err == nil && gvcSel("column", pattern) ==>
 //@           (forall j int :: 0 <= j && j < len(t.Columns) ==> !gvcMatch(gvcSelGlob("column", pattern), t.Columns[j].Name))
+
+// ---------------------------------------------------------------------------------------
+// Assumed contracts of the inspector (shared by the packages that use it)
+
+//@ import "context"
+//@ ghost var GvcInspected *Realm
+//@ extern func (i Inspector) InspectRealm(ctx context.Context, opts *InspectRealmOption) (r *Realm, err error)
+//@   effect if err == nil { GvcInspected = r }
+//@   ensures err == nil ==> r != nil
+//@   ensures err == nil ==> (forall i int :: 0 <= i && i < len(r.Schemas) ==> r.Schemas[i] != nil &&
+//@           (forall j int :: 0 <= j && j < len(r.Schemas[i].Tables) ==> r.Schemas[i].Tables[j] != nil))
+//@   ensures sqlite-has-exactly-main: err == nil && GvcDynTypeIs(i, "*ariga.io/atlas/sql/sqlite.inspect") ==> len(r.Schemas) == 1 && r.Schemas[0].Name == "main"
+//@ extern func (i Inspector) InspectSchema(ctx context.Context, name string, opts *InspectOptions) (s *Schema, err error)
+//@   ensures err == nil ==> s != nil
